@@ -159,8 +159,13 @@ def check_ctor(c, f):
         c.check(ok, f, tests[0].ast, 'the %s entry records the enumerate counter in %s (and only there)' % (marker, attr),
                 witness='assignments in that branch: %s' % [norm(n.ast) for n in asg + cross], tag='marker-' + marker)
         # that branch does not append to the pattern list and leaves the iteration (continue)
-        apps = [n for n in region if any(callee_last(k) == 'append' for k in node_calls(n))]
-        c.check(not apps, f, tests[0].ast, 'the %s entry is not stored as a pattern' % marker, tag='marker-skip-' + marker)
+        hdr_ = g.node_of_stmt(loop)
+        allapps = set(n for n in g.nodes if any(callee_last(k) == 'append' for k in node_calls(n)))
+        starts_ = [s2 for s2, l2 in tests[0].succ if l2 == 'true']
+        leak = [g.path(s2, allapps, avoid={hdr_}, skip_labels=('exc',)) for s2 in starts_]
+        leak = [p for p in leak if p]
+        c.check(not leak, f, tests[0].ast, 'the %s entry is not stored as a pattern (the iteration ends before the append)' % marker,
+                witness='path to the append: ' + g.describe_path(leak[0]) if leak else None, tag='marker-skip-' + marker)
     # initial values -1
     for attr in ('eof_index', 'timeout_index'):
         inits = [n for n in g.nodes if n.kind == 'stmt' and stmt_assigns_attr(n.ast, attr) is not None
@@ -516,6 +521,7 @@ MUTANTS = [
      "        for n, s in enumerate(patterns):\n            if s is EOF:\n                self.eof_index = n\n                continue\n            if s is TIMEOUT:\n                self.timeout_index = n\n                continue\n            self._searches.append((s, n))", 'D1'),
 ]
 MUTANTS += [
+    ('str-marker-falls-through', 'expect', "            if s is EOF:\n                self.eof_index = n\n                continue\n            if s is TIMEOUT:\n                self.timeout_index = n\n                continue\n            self._strings.append((n, s))", "            if s is EOF:\n                self.eof_index = n\n            if s is TIMEOUT:\n                self.timeout_index = n\n                continue\n            self._strings.append((n, s))", 'D1'),
     ('re-shrinking-end', 'expect', "            match = s.search(buffer, searchstart)\n", "            match = s.search(buffer, searchstart, len(buffer) if first_match is None else the_match.end())\n", 'D2'),
     ('existing-freshlen-buf', 'expect', "        freshlen = before_len\n", "        freshlen = buf_len\n", 'D6'),
 ]
